@@ -359,7 +359,8 @@ def c15(ck, tmp):
 def big_graph(ck):
     """the 100k-node test graph: implementation's components/aps against definitions that scale (components only)"""
     from gaftools.gfa import GFA
-    p = "/repo/tests/data/large-graph-chr1.gfa.gz"
+    from core import REPO
+    p = REPO + "/tests/data/large-graph-chr1.gfa.gz"
     if not os.path.exists(p):
         return
     g = GFA(p, low_memory=True)
